@@ -734,6 +734,21 @@ pub fn generate(seed: u64, scale: usize, which: &str) -> Cases {
             ];
             o.push("values-of-1000-bytes", run_case(&mut rr, plan));
         }
+        // ... and in a network of twenty servers, where the answers that carry them also list twenty nodes: the largest
+        // datagrams there are
+        {
+            let mut rr = r.fork();
+            let mut plan = vec![Ev::Join(true, vec![])];
+            for k in 1..20usize {
+                plan.push(Ev::Join(true, vec![(k - 1) / 2]));
+            }
+            plan.push(Ev::Put(3, 8));
+            plan.push(Ev::Get(17, 8));
+            plan.push(Ev::Put(11, 9));
+            plan.push(Ev::Get(5, 9));
+            plan.push(Ev::Get(0, 8));
+            o.push("values-of-1000-bytes-twenty-servers", run_case(&mut rr, plan));
+        }
         // the same signer announces a second time (through another node): readers get the newer announcement
         {
             let mut rr = r.fork();
